@@ -84,6 +84,7 @@ let () =
            (match calc ts with
             | COk v -> Printf.printf "@calc %s ok %d\n" id (int_of_z v)
             | CDivZero -> Printf.printf "@calc %s divzero\n" id
+            | CShift -> Printf.printf "@calc %s shift\n" id
             | CStuck -> Printf.printf "@calc %s stuck\n" id)
        | "dec" :: id :: pieces ->
            let r = compile_quoted_string (List.map (fun p -> explode (unhex p)) (List.filter (fun x -> x <> "") pieces)) in
